@@ -605,9 +605,14 @@ func (l *Linter) lintReturnStatement(stmt *ast.ReturnStatement, ctx *context.Con
 		return types.NeverType
 	}
 
-	if !expectState((stmt.ReturnExpression).String(), expects...) {
+	// The state is the identifier itself, String() would include the comments around it
+	state := stmt.ReturnExpression.String()
+	if ident, ok := stmt.ReturnExpression.(*ast.Ident); ok {
+		state = ident.Value
+	}
+	if !expectState(state, expects...) {
 		l.Error(InvalidReturnState(
-			stmt.ReturnExpression.GetMeta(), context.ScopeString(ctx.Mode()), stmt.ReturnExpression.String(), expects...,
+			stmt.ReturnExpression.GetMeta(), context.ScopeString(ctx.Mode()), state, expects...,
 		).Match(RESTART_STATEMENT_SCOPE))
 	}
 	return types.NeverType
